@@ -41,6 +41,21 @@ Theorem C36_tmp_never_listed : forall final rnd,
   is_id (final ++ [45; 116; 109; 112; 45]%N ++ rnd) = false.
 Proof. exact tmp_name_not_id. Qed.
 
+(* error paths of Save: when a write, the fsync or the rename fails (after any chunks written so far,
+   fallocate having worked or not), every prefix of the syscall sequence incl. the deferred cleanup is
+   safe, and at the end neither the final name nor the temporary file exists *)
+Theorem C36_failed_save_leaves_nothing : forall g p fp,
+  is_id (p_tmp p) = false -> bytes_eqb (t_name g) (p_tmp p) = false ->
+  (forall k, state_code g (run fs0 (firstn k (local_save_fail g p fp))) = 0) /\
+  dents (run fs0 (local_save_fail g p fp)) = [] /\
+  fail_end_code g (run fs0 (local_save_fail g p fp)) = 0.
+Proof.
+  intros g p fp H1 H2. destruct (local_save_fail_safe g p H1 H2 fp) as [A B].
+  split; [apply run_code_prefixes; exact A|]. split; [exact B|].
+  unfold fail_end_code. rewrite B. reflexivity.
+Qed.
+
+Print Assumptions C36_failed_save_leaves_nothing.
 Print Assumptions C36_final_absent_or_complete.
 Print Assumptions C36_oracle_all_prefixes.
 Print Assumptions C36_safe_state_meaning.
